@@ -203,6 +203,10 @@ def _grid(rng: Rng, m, unit=False):
 
 
 LAYOUTS = ["C", "C", "F", "T", "strided", "rolled"]
+# explicit numeric parameters (weights, penalties, noise variances) are probed at every scale, 1e-12 … 1e12:
+# exact guards (`== 0`) must not be replaced by tolerances
+SCALES = [Fraction(2), Fraction(1, 4), Fraction(9), Fraction(1, 2 ** 40), Fraction(1, 2 ** 30), Fraction(1, 2 ** 27),
+          Fraction(1, 2 ** 20), Fraction(2 ** 20), Fraction(2 ** 30), Fraction(2 ** 40)]
 
 
 def _coef(rng: Rng, N, K):
@@ -251,7 +255,7 @@ def gen_cases(rng: Rng, tier):
                 m = rng.randint(max(3, K + 1), 4)
             C, ck = _coef(rng, N, K)
             case = dict(kind=kind, lay=rng.choice(LAYOUTS), dtype=rng.choice(["float", "float", "float", "int"]), fam=fam, K=K, t=[rs(x) for x in _grid(rng, m, unit=(fam in ("wiener",)))],
-                        C=_S(C), ck=ck, w0=rs(rng.choice([Fraction(2), Fraction(1, 4), Fraction(9)])),
+                        C=_S(C), ck=ck, w0=rs(rng.choice(SCALES)),
                         degree=rng.randint(1, 3), stand=rng.random() < 0.3,
                         normalized=(rng.random() < 0.25 and m >= 5), intercept=rng.random() >= 0.2)
             if fam == "given":
@@ -268,7 +272,7 @@ def gen_cases(rng: Rng, tier):
             C, ck = _coef(rng, N, K1 * K2)
             case = dict(kind=kind, lay=rng.choice(LAYOUTS), fams=list(fams), K1=K1, K2=K2, t1=[rs(x) for x in _grid(rng, m1, True)],
                         t2=[rs(x) for x in _grid(rng, m2, True)], C=_S(C), ck=ck, degree=rng.randint(1, 2),
-                        w0=rs(rng.choice([Fraction(2), Fraction(1, 4)])))
+                        w0=rs(rng.choice(SCALES)))
             for d, (f, K_, m_) in enumerate(zip(fams, (K1, K2), (m1, m2))):
                 if f == "given":
                     case[f"Phi{d + 1}"] = _S([rng.dyadics(m_, -3, 3, 2) for _ in range(K_)])
@@ -353,11 +357,16 @@ def gen_cases(rng: Rng, tier):
             dim = 1 if rng.random() < 0.7 else 2
             if dim == 1:
                 nseg, deg = rng.randint(1, 6), rng.randint(1, 3)
-                m = rng.randint(nseg + deg + 1, nseg + deg + 9)
+                defaults = rng.random() < 0.15
+                if defaults:
+                    nseg, deg = 10, 3  # the defaults of PSplines, not passed: 13 functions
+                short = rng.random() < 0.3
+                # short grids: fewer points than functions (the settings asked for must still be used)
+                m = rng.randint(2, nseg + deg) if short else rng.randint(nseg + deg + 1, nseg + deg + 9)
                 N = rng.randint(1, 4)
                 sub = rng.choice(["rand", "inspace", "inspace", "smoothish"])
-                pen = rng.choice([0, 0, Fraction(1, 2), 1, 4]) if sub != "inspace" else 0
-                case = dict(kind=kind, penspell=rng.choice(["tuple", "list", "int", "float", "np", "array"]), lay=rng.choice(LAYOUTS), dim=1, nseg=nseg, deg=deg, t=[rs(x) for x in _grid(rng, m)], N=N, sub=sub,
+                pen = rng.choice([0, 0, Fraction(1, 2), 1, 4, Fraction(1, 2 ** 30), Fraction(2 ** 30), Fraction(1, 2 ** 40)]) if sub != "inspace" else 0
+                case = dict(kind=kind, defaults=defaults, short=short, penspell=rng.choice(["tuple", "list", "int", "float", "np", "array"]), lay=rng.choice(LAYOUTS), dim=1, nseg=nseg, deg=deg, t=[rs(x) for x in _grid(rng, m)], N=N, sub=sub,
                             pen=rs(pen), Y=_S([rng.dyadics(m, -4, 4, 3) for _ in range(N)]),
                             G=_S([rng.dyadics(nseg + deg, -3, 3, 2) for _ in range(N)]), pts=rng.random() < 0.3)
                 if rng.random() < 0.5:
@@ -375,9 +384,11 @@ def gen_cases(rng: Rng, tier):
                             mk[rng.randrange(N)][j] = 1
                     case["irrmask"] = mk
             else:
-                nseg, deg = rng.randint(1, 3), rng.randint(1, 2)
+                nseg, deg = rng.choice([1, 2, 3, 3, 6]), rng.randint(1, 2)
                 m1 = rng.randint(nseg + deg + 1, nseg + deg + 4)
                 m2 = rng.randint(nseg + deg + 1, nseg + deg + 5)
+                if rng.random() < 0.3:
+                    m2 = rng.randint(2, nseg + deg)  # short second axis (e.g. 12 x 7 with 6 segments)
                 N = rng.randint(1, 2)
                 sub = rng.choice(["rand", "inspace"])
                 pen = rng.choice([0, 1, Fraction(1, 2)]) if sub != "inspace" else 0
@@ -838,7 +849,7 @@ def _run_ps(case):
                                            coefs=bi.coefficients.tolist())
                 except Exception as e:
                     out["irr"][key] = "error:" + err_class(e)
-    kw = dict(n_segments=nseg, degree=deg)
+    kw = {} if case.get("defaults") else dict(n_segments=nseg, degree=deg)
     with warnings.catch_warnings():
         warnings.simplefilter("ignore")
         try:
